@@ -365,7 +365,9 @@ increasing order and was wrong: track rows precede road rows). Seeds 8/8.
 ValueError without a weight (add8c8b). Seeds 3/3 (one exposed a harness bug:
 a plain-library worker shared across `fork()`; fixed). ≈ 15 s.
 Session 3: a history-dependent answer (module-level list extended in place) is caught through the long-lived witness
-process (§2.10 (ii)): `answer-depends-on-earlier-calls`. Seeds 5/5.
+process (§2.10 (ii)): `answer-depends-on-earlier-calls`, and since the end of session 3 also by oracle-free history jobs (code
+and weight after the same two functions answered for another event / gender / label with digits of its own == the answers after
+the library state is put back). Seeds 5/5.
 ''',
 'C19': '''**As built.** As designed; a second validator class was added to the symbolic
 pre-state after a seed merged cache keys of different validators. Repaired:
